@@ -379,7 +379,7 @@ def linkify(
             if url != before_clip:
                 amp = url.rfind("&")
                 # avoid splitting html char entities
-                if amp > max_len - 5:
+                if amp != -1 and ";" not in url[amp:]:
                     url = url[:amp]
                 url += "..."
 
